@@ -196,16 +196,38 @@ Section SortProofs.
     eapply part_threads_perm; exact H.
   Qed.
 
-  Lemma walls_perm : forall wfuel a b thresh pivot lwall rwall a' l r,
-    walls wfuel a b thresh pivot lwall rwall = Some (a', l, r) -> PermA a a'.
+  Lemma walls_perm : forall se wfuel a b thresh pivot lwall rwall a' l r,
+    walls se wfuel a b thresh pivot lwall rwall = Some (a', l, r) -> PermA a a'.
   Proof.
-    induction wfuel as [|f IH]; intros a b thresh pivot lwall rwall a' l r H; simpl in H.
+    intros se. induction wfuel as [|f IH]; intros a b thresh pivot lwall rwall a' l r H; simpl in H.
     - destruct ((lwall <? rwall) && (thresh <? rwall - lwall)); [discriminate|].
       inversion H; subst. apply PermA_refl.
     - destruct ((lwall <? rwall) && (thresh <? rwall - lwall)).
       + destruct (partitioner a (b + lwall) (rwall - lwall + 1) pivot) as [[[a0 l0] r0]|] eqn:Ep; [|discriminate].
-        eapply PermA_trans; [eapply partitioner_perm; exact Ep|]. eapply IH; exact H.
+        assert (P0 : PermA a a0) by (eapply partitioner_perm; exact Ep).
+        destruct (se && ((r0 + lwall <=? l0 + lwall) || (rwall - lwall <=? r0 + lwall - (l0 + lwall)))).
+        * inversion H; subst. exact P0.
+        * eapply PermA_trans; [exact P0|]. eapply IH; exact H.
       + inversion H; subst. apply PermA_refl.
+  Qed.
+
+  (* with the no-progress exit the partition loop cannot run out of fuel: when every pass returns, the loop
+     returns as soon as the fuel exceeds the gap (the gap strictly shrinks on every pass that does not exit) *)
+  Lemma walls_terminates : forall wfuel a b thresh pivot lwall rwall,
+    (forall a0 b0 l0 p0, partitioner a0 b0 l0 p0 <> None) ->
+    (N.to_nat (rwall - lwall) < wfuel)%nat ->
+    walls true wfuel a b thresh pivot lwall rwall <> None.
+  Proof.
+    intros wfuel a b thresh pivot lwall rwall Hpart. revert a lwall rwall.
+    induction wfuel as [|f IH]; intros a lwall rwall Hf; [lia|].
+    simpl.
+    destruct ((lwall <? rwall) && (thresh <? rwall - lwall)); [|discriminate].
+    destruct (partitioner a (b + lwall) (rwall - lwall + 1) pivot) as [[[a0 l0] r0]|] eqn:Ep.
+    - simpl.
+      destruct (N.leb_spec (r0 + lwall) (l0 + lwall)); simpl; [discriminate|].
+      destruct (N.leb_spec (rwall - lwall) (r0 + lwall - (l0 + lwall))); simpl; [discriminate|].
+      apply IH. lia.
+    - exfalso. exact (Hpart _ _ _ _ Ep).
   Qed.
 
   Lemma fixmain_perm : forall fuel a b pivot lw rw a' l r fl,
@@ -291,12 +313,12 @@ Section SortProofs.
     - inversion H; subst. lia.
   Qed.
 
-  Lemma node_perm : forall newrule wfuel a b len a' rw pd,
-    qsort_node newrule wfuel a b len = Some (a', rw, pd) -> PermA a a'.
+  Lemma node_perm : forall newrule se wfuel a b len a' rw pd,
+    qsort_node newrule se wfuel a b len = Some (a', rw, pd) -> PermA a a'.
   Proof.
-    intros newrule wfuel a b len a' rw pd H. unfold Sort.qsort_node in H.
+    intros newrule se wfuel a b len a' rw pd H. unfold Sort.qsort_node in H.
     destruct (trimedian a b len) as [a1|] eqn:Et; [|discriminate].
-    destruct (walls wfuel a1 b (p_thresh P len) (aget a1 (b + len / 2)) 0 (len - 1)) as [[[a2 lwall] rwall]|] eqn:Ew; [|discriminate].
+    destruct (walls se (if se then S (N.to_nat len) else wfuel) a1 b (p_thresh P len) (aget a1 (b + len / 2)) 0 (len - 1)) as [[[a2 lwall] rwall]|] eqn:Ew; [|discriminate].
     destruct (fixup a2 b len (aget a1 (b + len / 2)) lwall rwall) as [[a3 rw0]|] eqn:Ef; [|discriminate].
     assert (P3 : PermA a a3).
     { eapply PermA_trans; [eapply trimedian_perm; exact Et|].
@@ -312,17 +334,17 @@ Section SortProofs.
 
   (* sort_permutation: whatever the parameters (chunk, thread count, cutoff, threshold), the rule (current code /
      code before the pivot-is-maximum fix), the fuel and the input, a run that returns has only permuted the array *)
-  Theorem qsort_permutation : forall newrule fuel wfuel a b len a',
-    qsort_inner_gen newrule fuel wfuel a b len = Some a' -> PermA a a'.
+  Theorem qsort_permutation : forall newrule se fuel wfuel a b len a',
+    qsort_inner_gen newrule se fuel wfuel a b len = Some a' -> PermA a a'.
   Proof.
-    intros newrule. induction fuel as [|f IH]; intros wfuel a b len a' H; [discriminate|].
+    intros newrule se. induction fuel as [|f IH]; intros wfuel a b len a' H; [discriminate|].
     simpl in H.
     destruct (p_small P len).
     - destruct (N.leb_spec (b + len) bound); [|discriminate]. inversion H; subst. apply base_sort_perm. assumption.
-    - destruct (qsort_node newrule wfuel a b len) as [[[a3 rw] pd]|] eqn:En; [|discriminate].
+    - destruct (qsort_node newrule se wfuel a b len) as [[[a3 rw] pd]|] eqn:En; [|discriminate].
       assert (P3 : PermA a a3) by (eapply node_perm; exact En).
       destruct (0 <? rw).
-      + destruct (qsort_inner_gen newrule f wfuel a3 b rw) as [a4|] eqn:E4; [|discriminate].
+      + destruct (qsort_inner_gen newrule se f wfuel a3 b rw) as [a4|] eqn:E4; [|discriminate].
         assert (P4 : PermA a a4) by (eapply PermA_trans; [exact P3|eapply IH; exact E4]).
         destruct (negb pd && (0 <? len - rw) && (rw <? len)).
         * eapply PermA_trans; [exact P4|]. eapply IH; exact H.
@@ -338,24 +360,24 @@ Section SortProofs.
        pivots_done = false  ->  0 < rightwall < len      (both parts non-empty: the partition postcondition)
        pivots_done = true   ->  rightwall < len           (the pivot itself was moved to the end).
      NodeOK states exactly that for every segment; under it fuel = len + 1 is enough for every input. *)
-  Definition NodeOK (newrule : bool) (wfuel : nat) : Prop :=
+  Definition NodeOK (newrule se : bool) (wfuel : nat) : Prop :=
     forall a b len, p_small P len = false -> b + len <= bound ->
-      exists a' rw pd, qsort_node newrule wfuel a b len = Some (a', rw, pd) /\
+      exists a' rw pd, qsort_node newrule se wfuel a b len = Some (a', rw, pd) /\
                        rw < len /\ (pd = false -> 0 < rw).
 
-  Theorem qsort_terminates_partial : forall newrule wfuel, NodeOK newrule wfuel ->
+  Theorem qsort_terminates_partial : forall newrule se wfuel, NodeOK newrule se wfuel ->
     forall fuel a b len, b + len <= bound -> (N.to_nat len < fuel)%nat ->
-    qsort_inner_gen newrule fuel wfuel a b len <> None.
+    qsort_inner_gen newrule se fuel wfuel a b len <> None.
   Proof.
-    intros newrule wfuel Hnode.
+    intros newrule se wfuel Hnode.
     induction fuel as [|f IH]; intros a b len Hb Hf; [lia|].
     simpl.
     destruct (p_small P len) eqn:Es.
     - destruct (N.leb_spec (b + len) bound); [discriminate|lia].
     - destruct (Hnode a b len Es Hb) as [a3 [rw [pd [En [Hlt Hpos]]]]]. rewrite En.
-      assert (L : forall a0, (if 0 <? rw then qsort_inner_gen newrule f wfuel a0 b rw else Some a0) <> None).
+      assert (L : forall a0, (if 0 <? rw then qsort_inner_gen newrule se f wfuel a0 b rw else Some a0) <> None).
       { intros a0. destruct (0 <? rw); [|discriminate]. apply IH; lia. }
-      destruct (if 0 <? rw then qsort_inner_gen newrule f wfuel a3 b rw else Some a3) as [a4|] eqn:E4.
+      destruct (if 0 <? rw then qsort_inner_gen newrule se f wfuel a3 b rw else Some a3) as [a4|] eqn:E4.
       + destruct (negb pd && (0 <? len - rw) && (rw <? len)) eqn:Ec; [|discriminate].
         assert (pd = false) by (destruct pd; [discriminate|reflexivity]).
         specialize (Hpos H). apply IH; lia.
@@ -366,9 +388,9 @@ Section SortProofs.
      with everything <= pivot (left part = whole segment), the call recurses on itself: no fuel is enough *)
   Lemma qsort_old_stuck : forall wfuel a b len,
     p_small P len = false ->
-    qsort_node false wfuel a b len = Some (a, len, false) ->
+    qsort_node false false wfuel a b len = Some (a, len, false) ->
     0 < len ->
-    forall fuel, qsort_inner_gen false fuel wfuel a b len = None.
+    forall fuel, qsort_inner_gen false false fuel wfuel a b len = None.
   Proof.
     intros wfuel a b len Hs Hn Hl fuel.
     induction fuel as [|f IH]; [reflexivity|].
@@ -383,7 +405,7 @@ End SortProofs.
    parallel partition when the gap exceeds 8); elements are integers *)
 Definition id_sort (a : arr Z) (b len : N) : arr Z := a.
 Definition small_qsort (newrule : bool) (bound : N) (fuel wfuel : nat) (l : list Z) : option (list Z) :=
-  match qsort_inner_gen Z Z.leb 0%Z bound id_sort (qutil_params 16 4) newrule fuel wfuel (of_list Z l) 0 (N.of_nat (length l)) with
+  match qsort_inner_gen Z Z.leb 0%Z bound id_sort (qutil_params 16 4) newrule newrule fuel wfuel (of_list Z l) 0 (N.of_nat (length l)) with
   | None => None
   | Some a => Some (to_list Z 0%Z a (N.of_nat (length l)))
   end.
@@ -410,4 +432,15 @@ Proof. vm_compute. reflexivity. Qed.
 (* the code returns when the elements differ (non-vacuity of the permutation theorem: swaps happen); the
    segments below the cutoff are left to the base sort, which is the identity in this instance *)
 Example small_qsort_runs : small_qsort true 7 10 10 [5; 3; 9; 1; 7; 2; 8]%Z = Some [1; 3; 2; 5; 7; 9; 8]%Z.
+Proof. vm_compute. reflexivity. Qed.
+
+(* regression for the partition-stall fix: on this input the pass on [2, 11] returns the walls (2, 11) again.
+   Loop before the fix (stall_exit = false): 40 passes are not enough (nor any other number: every pass is the same);
+   current loop: the second pass does not narrow the gap, the loop exits and the call returns. *)
+Definition stall_input : list Z := [1; 1; 2; 2; 1; 1; 1; 1; 2; 2; 1; 1]%Z.
+Example qsort_stall_old_rule :
+  qsort_inner_gen Z Z.leb 0%Z 12 id_sort (qutil_params 16 4) true false 13 40 (of_list Z stall_input) 0 12 = None.
+Proof. vm_compute. reflexivity. Qed.
+Example qsort_stall_fixed :
+  small_qsort true 12 13 0 stall_input = Some [1; 1; 1; 1; 1; 1; 1; 1; 2; 2; 2; 2]%Z.
 Proof. vm_compute. reflexivity. Qed.
